@@ -13,7 +13,7 @@
    untouched / independent / varied_invalid / valid_is_parent_copy are defined in the model file
    next to `reach` and `varied`. *)
 From Coq Require Import List ZArith Bool.
-From DV Require Import Model.C02_Variation Model.C02_Literal Proofs.C02_Variation Proofs.C02_Progress Proofs.C02_Literal Proofs.C02_Trace.
+From DV Require Import Model.C02_Variation Model.C02_Literal Model.C02_Legacy Proofs.C02_Variation Proofs.C02_Progress Proofs.C02_Literal Proofs.C02_Trace.
 Import ListNotations.
 
 (* ---------------------------------------------------------------- varAnd *)
@@ -272,3 +272,23 @@ Proof.
   - reflexivity.
   - reflexivity.
 Qed.
+
+(* ---------------------------------------------------------------- the defect that was repaired *)
+(* for varOr as it stood before fix 80d9b4e (reproduction branch appends the chosen parent itself,
+   Model/C02_Legacy.v) the independence theorem is false: varOr(pop, toolbox, 2, 0, 0) returns the
+   parents.  The same call on the repaired implementation is replayed by the harness on every run. *)
+Theorem C02_varOr_unrepaired_refuted :
+  exists (h0 : heap nat nat) pop d off s',
+    wf_heap h0 /\ pop_ok h0 pop /\
+    var_or_legacy Nat.ltb Nat.leb Nat.add 10 ex_mate ex_mut 2 0 0 (start h0 d) pop = (s', inr off) /\
+    ~ independent h0 (hp s') off.
+Proof.
+  exists ex_h0, [0; 1], [DRandom 3; DChoice 2 1; DRandom 0; DChoice 2 0], [1; 0].
+  eexists. split; [|split; [|split]].
+  - exact (proj1 C02_nonvacuous).
+  - exact (proj1 (proj2 C02_nonvacuous)).
+  - reflexivity.
+  - intros (_ & Hfresh & _). destruct (Hfresh 1 (or_introl eq_refl)) as [[H _] _]. cbn in H.
+    inversion H as [|? H1]; inversion H1.
+Qed.
+Print Assumptions C02_varOr_unrepaired_refuted.
